@@ -1,7 +1,7 @@
 """C07 - Silent instances are detected in bounded time, live ones never declared lost (structural clauses)."""
 import ast
 from ..model import own_nodes, AnalysisError
-from ..paths import statements, expand_self, factmap, must_call, call_text, returns
+from ..paths import statements, expand_self, factmap, must_call, call_text, returns, ctext
 from ..typestate import InstanceTypestate
 from ..fsm import Fsm
 from . import shared
@@ -170,7 +170,11 @@ def run(P, R):
         if loops else False
     R.check(r5, ok, 'every process running on the lost instance is invalidated there', 'chain|invalidate-processes',
             u.loc(), 'invalidate_failed does not call invalidate_identifier on all running processes of the instance')
-    R.check(r5, must_call(u.node, lambda k: call_text(k) == 'self.publish_process_failures'),
+    pf = [k for k in own_nodes(u.node) if isinstance(k, ast.Call) and call_text(k) == 'self.publish_process_failures']
+    # (publishing an empty set publishes nothing: a guard on the argument itself is accepted)
+    guarded_on_arg = len(pf) == 1 and len(pf[0].args) == 1 and \
+        {(f[0], f[1]) for f in fm.at(pf[0])} <= {(ast.unparse(pf[0].args[0]), True)}
+    R.check(r5, must_call(u.node, lambda k: call_text(k) == 'self.publish_process_failures') or guarded_on_arg,
             'process failures are published', 'chain|publish-failures', u.loc(),
             'invalidate_failed does not always publish the process failures')
     u = P.unit('ProcessStatus.invalidate_identifier')
@@ -259,8 +263,35 @@ def run(P, R):
     ok = any(isinstance(h, ast.ExceptHandler) and h.type is not None and ast.unparse(h.type) == 'SupervisorProxyException'
              and any(isinstance(c, ast.Call) and call_text(c) == 'self.handle_exception' for s in h.body for c in ast.walk(s))
              for h in own_nodes(u.node))
+    # every proxied send of process_event (request, publication AND the notifications forwarded to the local Supervisor)
+    # is covered by that handler: an exception escaping there ends the proxy thread, and with it every later
+    # INSTANCE_FAILURE notification
+    fmp = factmap(u)
+    sends = [c for c in own_nodes(u.node) if isinstance(c, ast.Call) and call_text(c) in (
+        'self.execute', 'self.publish', 'self.send_remote_comm_event')]
+    uncovered = [call_text(c) for c in sends
+                 if 'SupervisorProxyException' not in {nm for level in (fmp.handlers.get(id(c), ()) or fmp.handlers.get(
+                     id(fmp.stmt_of.get(id(c), c)), ())) for handler in level for nm in handler}]
+    ok = ok and len(sends) >= 3 and not uncovered
     R.check(r7, ok, 'every transport failure of a proxied message reaches handle_exception', 'bus|process_event',
-            u.loc(), 'process_event does not route SupervisorProxyException to handle_exception')
+            u.loc(), 'process_event does not route SupervisorProxyException to handle_exception for %s' %
+            (uncovered or 'its sends'))
+    # the reader side: Context.on_instance_failure declares FAILED any peer that is in an active state - CHECKING and
+    # CHECKED included (the transition table allows FAILED from each of them), not only RUNNING ones
+    oif = P.unit('Context.on_instance_failure')
+    fmo = factmap(oif)
+    st_ = [a for a in own_nodes(oif.node) if isinstance(a, ast.Assign) and ast.unparse(a.targets[0]) == 'status.state']
+    ok = len(st_) == 1 and ast.unparse(st_[0].value) == 'SupvisorsInstanceStates.FAILED' and \
+        {(f[0], f[1]) for f in fmo.closed(st_[0])} == {('status.has_active_state()', True)}
+    R.check(r7, ok, 'a transport failure makes any active peer FAILED', 'bus|on_instance_failure', oif.loc(),
+            'Context.on_instance_failure assigns FAILED under %s (expected: exactly has_active_state())' %
+            [sorted((f[0], f[1]) for f in fmo.closed(a)) for a in st_])
+    has = P.unit('SupvisorsInstanceStatus.has_active_state')
+    rs = [ctext(v) for v, f, n in returns(has) if v is not None]
+    ok = len(rs) == 1 and all(('SupvisorsInstanceStates.' + x) in rs[0] for x in ('CHECKING', 'CHECKED', 'RUNNING', 'FAILED')) \
+        and 'STOPPED' not in rs[0] and 'ISOLATED' not in rs[0] and rs[0].startswith('self.state in ')
+    R.check(r7, ok, 'active = CHECKING, CHECKED, RUNNING or FAILED', 'bus|has_active_state', has.loc(),
+            'has_active_state returns %s' % rs)
     u = P.unit('SupervisorListener.read_notification')
     fm = factmap(u)
     k = [c for c in own_nodes(u.node) if isinstance(c, ast.Call) and call_text(c) == 'self.fsm.on_instance_failure']
